@@ -109,7 +109,11 @@ where
     let from: u64 = args.get("from").map(|v| v.parse().expect("from")).unwrap_or(0);
     let indices: Vec<u64> = match args.only {
         Some(i) => vec![i],
-        None => (from..total).collect(),
+        None => {
+            let shard: u64 = args.get("shard").map(|v| v.parse().expect("shard")).unwrap_or(0);
+            let shards: u64 = args.get("shards").map(|v| v.parse().expect("shards")).unwrap_or(1);
+            (from..total).filter(|i| i % shards == shard).collect()
+        }
     };
     let threads = args.threads.max(1).min(indices.len().max(1));
     let mut merged = Report::new();
